@@ -42,6 +42,17 @@ namespace XALAN_CPP_NAMESPACE {
 
 
 
+#if defined(APACHE_XALAN_C_VERIF)
+VariablesStack::VerifObserver   VariablesStack::s_verifObserver = 0;
+
+#define XALAN_VERIF_VS(op, name, a, b, c) \
+    do { if (s_verifObserver != 0) s_verifObserver(op, name, (unsigned long)(a), (unsigned long)(b), (unsigned long)(c), (unsigned long)m_stack.size()); } while(0)
+#else
+#define XALAN_VERIF_VS(op, name, a, b, c)
+#endif
+
+
+
 VariablesStack::VariablesStack(MemoryManager& theManager) :
     m_stack(theManager),
     m_globalStackFrameIndex(~0u),
@@ -75,6 +86,8 @@ VariablesStack::reset()
 
     m_globalStackFrameMarked = false;
     m_globalStackFrameIndex = ~0u;
+
+    XALAN_VERIF_VS("reset", 0, 0, 0, 0);
 }
 
 
@@ -110,6 +123,8 @@ void
 VariablesStack::pushContextMarker()
 {
     push(StackEntry());
+
+    XALAN_VERIF_VS("cm", 0, 0, 0, 0);
 }
 
 
@@ -146,6 +161,8 @@ VariablesStack::popContextMarker()
     // though the select expression really should be evaluated in
     // the previous stack context.
 //  m_currentStackFrameIndex = size_type(m_stack.size());
+
+    XALAN_VERIF_VS("popcm", 0, 0, 0, 0);
 }
 
 
@@ -243,6 +260,13 @@ VariablesStack::pushParams(const ParamsVectorType&  theParams)
     for_each(theParams.begin(), theParams.end(), PushParamFunctor(*this));
 
     thePusher.commit();
+
+#if defined(APACHE_XALAN_C_VERIF)
+    for (ParamsVectorType::size_type i = 0; i < theParams.size(); ++i)
+    {
+        XALAN_VERIF_VS("par", theParams[i].m_qname, i + 1, theParams.size(), 0);
+    }
+#endif
 }
 
 
@@ -259,6 +283,8 @@ VariablesStack::pushVariable(
     }
 
     push(StackEntry(&name, var));
+
+    XALAN_VERIF_VS("var", &name, e, 0, 0);
 }
 
 
@@ -277,6 +303,8 @@ VariablesStack::pushVariable(
     }
 
     push(StackEntry(&name, val));
+
+    XALAN_VERIF_VS("var", &name, e, 1, 0);
 }
 
 
@@ -503,6 +531,10 @@ VariablesStack::findEntry(
         }
     }
 
+#if defined(APACHE_XALAN_C_VERIF)
+    const bool  theVerifLocal = theEntryIndex != m_stack.size();
+#endif
+
     // m_globalStackFrameIndex is ~0u until the global frame has been marked (the
     // top-level parameters supplied by the caller are evaluated before that).
     if(theEntryIndex == m_stack.size() && fIsParam == false && true == fSearchGlobalSpace &&
@@ -533,6 +565,15 @@ VariablesStack::findEntry(
         }
     }
 
+    // a: 1 = the lookup of an xsl:param, +2 = found in the local frame, +4 = found among the
+    // top-level variables; b: the index of the entry found; c: where the local search started
+    XALAN_VERIF_VS(
+        "find",
+        &qname,
+        (fIsParam ? 1 : 0) + (theVerifLocal ? 2 : 0) + (theVerifLocal == false && theEntryIndex != m_stack.size() ? 4 : 0),
+        theEntryIndex == m_stack.size() ? 0 : theEntryIndex,
+        nElems);
+
     return theEntryIndex;
 }
 
@@ -546,6 +587,13 @@ VariablesStack::pushElementFrame(const ElemTemplateElement* elem)
 #if defined(XALAN_DEBUG)
     m_elementFrameStack.push_back(elem);
 #endif
+
+    XALAN_VERIF_VS(
+        "ef",
+        0,
+        elem,
+        elem != 0 && elem->getXSLToken() == StylesheetConstructionContext::ELEMNAME_TEMPLATE,
+        0);
 }
 
 
@@ -652,6 +700,8 @@ VariablesStack::popElementFrame()
             theEntry.deactivate();
         }
     }
+
+    XALAN_VERIF_VS("popef", 0, 0, 0, 0);
 }
 
 
